@@ -642,11 +642,18 @@ def fam_amb(rng):
                 lex_overlap=False)
 
 
-def fam_random(rng):
+def fam_random_eps(rng):
+    """Random small CFG biased towards EMPTY alternatives, recursion and few
+    terminals: the shapes on which the GLR driver revisits already processed
+    heads when a new link appears on the same frontier."""
+    return fam_random(rng, eps=True)
+
+
+def fam_random(rng, eps=False):
     """Random small CFG (<=4 nonterminals, <=5 terminals, <=3 alternatives of
     length <=3).  Filtered later by a deterministic construction budget."""
-    nn = rng.randint(1, 4)
-    nt = rng.randint(1, 5)
+    nn = rng.randint(2, 3) if eps else rng.randint(1, 4)
+    nt = rng.randint(1, 2) if eps else rng.randint(1, 5)
     nts = ["S", "A", "B", "C"][:nn]
     ts = ["a", "b", "c", "d", "e"][:nt]
 
@@ -655,8 +662,16 @@ def fam_random(rng):
         for name in nts:
             alts = []
             for _ in range(r.randint(1, 3)):
-                ln = r.choice([0, 1, 1, 2, 2, 3])
-                alts.append(Alt([r.choice(nts + ts + ts) for _ in range(ln)]))
+                ln = r.choice([0, 0, 1, 2, 2, 3, 3] if eps else [0, 1, 1, 2, 2, 3])
+                alts.append(Alt([r.choice(nts + nts + ts if eps else nts + ts + ts)
+                                 for _ in range(ln)]))
+            if eps:
+                # hidden recursion through nullable symbols: an alternative made of
+                # nonterminals only, and (mostly) an EMPTY alternative
+                if r.random() < 0.7:
+                    alts.append(Alt([r.choice(nts) for _ in range(r.choice([2, 3, 3]))]))
+                if r.random() < 0.7:
+                    alts.append(Alt([]))
             # make sure every NT is productive: one alternative of terminals only
             if not any(all(i.sym in ts for i in a.items) for a in alts):
                 alts.append(Alt([r.choice(ts)] if r.random() < 0.8 else []))
@@ -684,10 +699,11 @@ def fam_random(rng):
             for r_ in rules:
                 r_.alts.reverse()
         models.append(GModel(rules, [Term(n, "str", n, [n]) for n in ts]))
-    return dict(family="random", models=models, layout="ws", lex_overlap=False)
+    return dict(family="random-eps" if eps else "random", models=models, layout="ws",
+                lex_overlap=False)
 
 
-MAX_TOKENS = {"amb": 7, "random": 10, "nullable": 12}
+MAX_TOKENS = {"amb": 7, "random": 10, "random-eps": 6, "nullable": 12}
 
 FAMILIES = {
     "expr": fam_expr,
@@ -698,6 +714,7 @@ FAMILIES = {
     "rec": fam_rec,
     "amb": fam_amb,
     "random": fam_random,
+    "random-eps": fam_random_eps,
 }
 
 
@@ -732,7 +749,7 @@ def child_build_budget(texts):
 def make_scenario(rng, families):
     fam = rng.choice(families)
     sc = FAMILIES[fam](rng)
-    if fam == "random":
+    if fam in ("random", "random-eps"):
         from .core import call_or_raise
 
         tries = 0
